@@ -130,7 +130,8 @@ def expected_semantics(enc: dict, info: Dict[str, Any]):
 
 
 def shell_opts(rng: random.Random, want_multiclient: bool = False, small: bool = False,
-               mc_decoys: str = 'random') -> GenOpts:
+               mc_decoys: str = 'random', mc_shape: Optional[int] = None,
+               name_families: Optional[float] = None) -> GenOpts:
     """Generator options for models that are meant to be wrapped in a shell."""
     return GenOpts(
         max_ns_depth=rng.choice([0, 1, 2, 3]), max_ns_children=rng.choice([1, 2]),
@@ -141,16 +142,18 @@ def shell_opts(rng: random.Random, want_multiclient: bool = False, small: bool =
         n_components=(1, 2), n_systems=(0, 1),
         n_provides=(0, 2) if small else (0, 3), n_requires=(0, 2) if small else (0, 3),
         n_injected=(0, 1), n_foreigns=(0, 1), n_subints=(0, 1), noise=0.0,
-        want_multiclient=want_multiclient, global_component=0.2, mc_decoys=mc_decoys)
+        want_multiclient=want_multiclient, global_component=0.2, mc_decoys=mc_decoys,
+        mc_shape=mc_shape, name_families=0.15 if name_families is None else name_families)
 
 
 def gen_shell_case(rng: random.Random, want_multiclient: Optional[bool] = None,
                    small: bool = False, hostile_text: bool = False, mc_decoys: str = 'random',
-                   mc_position: Optional[str] = None):
+                   mc_position: Optional[str] = None, mc_shape: Optional[int] = None,
+                   name_families: Optional[float] = None):
     """(gen, entry, cfg encoding, info): one model, one encapsulee, one valid configuration."""
     wmc = rng.random() < 0.4 if want_multiclient is None else want_multiclient
     for _attempt in range(50):
-        gen = ModelGen(rng, shell_opts(rng, wmc, small, mc_decoys))
+        gen = ModelGen(rng, shell_opts(rng, wmc, small, mc_decoys, mc_shape, name_families))
         gen.build_skeleton()
         o = gen.o
         for _ in range(gen._rint(o.n_externs)):
